@@ -33,6 +33,8 @@ pub struct ConvOpts {
     /// a trailing multi-valued positional with allow_hyphen_values (its level then spells option
     /// values detached or with `--long=`: `-oVAL` before such a positional is read as a positional value)
     pub hyphen_pos: bool,
+    /// positionals sometimes carry explicit indices and are declared in another order than index order
+    pub explicit_index: bool,
 }
 
 impl ConvOpts {
@@ -56,6 +58,7 @@ impl ConvOpts {
             env_prefix: String::new(),
             extended: true,
             hyphen_pos: false,
+            explicit_index: false,
         }
     }
 }
@@ -65,7 +68,7 @@ pub const CONV_LONGS: &[&str] = &[
     "alpha", "alpine", "alp", "beta", "bet", "gamma", "delta", "del", "color", "colour", "config", "verbose", "output", "out", "input",
     "force", "mode", "name", "level", "quiet", "zeta", "dry-run", "no-color", "opt", "file",
 ];
-pub const CONV_SHORTS: &[char] = &['a', 'b', 'c', 'd', 'e', 'f', 'g', 'i', 'j', 'k', 'l', 'm', 'n', 'o', 'p', 'q', 'r', 's', 't', 'u', 'v', 'w', 'x', 'y', 'z'];
+pub const CONV_SHORTS: &[char] = &['a', 'b', 'c', 'd', 'e', 'f', 'g', 'i', 'j', 'k', 'l', 'm', 'n', 'o', 'p', 'q', 'r', 's', 't', 'u', 'v', 'w', 'x', 'y', 'z', 'é', 'ö', 'Š', '世', '😀', 'Y'];
 pub const CONV_SUBS: &[&str] = &["sync", "syn", "status", "stat", "add", "remove", "rm", "list", "query", "push", "pull", "init", "test", "build", "run", "show"];
 
 fn conv_level(rng: &mut Rng, o: &ConvOpts, name: String, depth_left: usize, inherited: &Used, lvl: usize) -> CmdSpec {
@@ -92,7 +95,12 @@ fn conv_level(rng: &mut Rng, o: &ConvOpts, name: String, depth_left: usize, inhe
     };
     let nflags = rng.below(4);
     let nopts = rng.below(4);
-    let npos = rng.below(3);
+    // (mostly 0..2 positionals; now and then 3 or 4)
+    let npos = match rng.below(30) {
+        0 | 1 => 3,
+        2 => 4,
+        n => n % 3,
+    };
     let mut k = 0;
     for _ in 0..nflags + nopts {
         let is_flag = k < nflags;
@@ -282,6 +290,28 @@ fn conv_level(rng: &mut Rng, o: &ConvOpts, name: String, depth_left: usize, inhe
         c.args[last].delim = None;
         c.args[last].terminator = None;
     }
+    if o.explicit_index && npos >= 2 && rng.chance(1, 5) {
+        // explicit indices; the declaration order is shuffled (index order is what the grammar follows)
+        let mut k = 0;
+        for a in c.args.iter_mut().filter(|a| a.is_positional()) {
+            k += 1;
+            a.index = Some(k);
+        }
+        let mut moved: Vec<ArgSpec> = vec![];
+        let mut i = 0;
+        while i < c.args.len() {
+            if c.args[i].is_positional() {
+                moved.push(c.args.remove(i));
+            } else {
+                i += 1;
+            }
+        }
+        rng.shuffle(&mut moved);
+        for a in moved {
+            let at = rng.below(c.args.len() + 1);
+            c.args.insert(at, a);
+        }
+    }
     if c.args.iter().any(|a| a.is_positional() && a.allow_hyphen) {
         // clap reads a short token with any character that is not a known short (`-oVAL`, `-o=VAL`)
         // as a value of the not-yet-started hyphen positional: options of this level are long-only
@@ -385,8 +415,18 @@ pub fn conv_cmd(rng: &mut Rng, o: &ConvOpts) -> CmdSpec {
     root.longs.insert("version".into());
     root.shorts.insert('h');
     root.shorts.insert('V');
+    // now and then a deeper (and narrower) tree than the usual one: chains of four subcommands
+    let deep;
+    let o = if o.depth >= 2 && rng.chance(1, 12) {
+        deep = ConvOpts { depth: o.depth + 2, max_subs: 2, ..o.clone() };
+        &deep
+    } else {
+        o
+    };
     let mut c = conv_level(rng, o, "prog".into(), o.depth, &root, 0);
     c.settings.retain(|s| !matches!(s, Setting::SubcommandNegatesReqs));
+    // the inference settings reach every level below the one that declares them
+    c.push_down(&[Setting::InferLongArgs, Setting::InferSubcommands]);
     c
 }
 
@@ -474,8 +514,13 @@ fn value_tok(rng: &mut Rng, a: &ArgSpec, occ: usize, k: usize) -> String {
 /// Generates a valid intent for one level (and recursively the chosen subcommand).
 pub fn gen_intent(rng: &mut Rng, c: &CmdSpec, io: &IntentOpts) -> LevelIntent {
     let mut li = LevelIntent::default();
+    // far end of "how many": now and then a line with many occurrences and many values
+    let many = rng.chance(1, 24);
+    let max_items = if many { io.max_items * 10 } else { io.max_items };
     let opts: Vec<usize> = (0..c.args.len()).filter(|i| !c.args[*i].is_positional()).collect();
-    let poss: Vec<usize> = (0..c.args.len()).filter(|i| c.args[*i].is_positional()).collect();
+    let mut poss: Vec<usize> = (0..c.args.len()).filter(|i| c.args[*i].is_positional()).collect();
+    // (index order, which explicit indices may make differ from declaration order)
+    poss.sort_by_key(|i| c.args[*i].index.unwrap_or(0));
     // choose the subcommand first: closure rules depend on what follows
     let sub = if !c.subs.is_empty() && rng.chance(2, 3) { Some(rng.below(c.subs.len())) } else { None };
     // low-index multiple pair (multi-valued second-to-last + final positional): both supplied,
@@ -513,9 +558,10 @@ pub fn gen_intent(rng: &mut Rng, c: &CmdSpec, io: &IntentOpts) -> LevelIntent {
         if !supplied {
             continue;
         }
+        let reps = if many { rng.range(4, 30) } else { rng.range(1, 3) };
         let n = match a.act() {
-            Act::Append | Act::Count => rng.range(1, 3),
-            Act::Set | Act::SetTrue | Act::SetFalse if io.repeats && is_selfover(c, a) => rng.range(1, 3),
+            Act::Append | Act::Count => reps,
+            Act::Set | Act::SetTrue | Act::SetFalse if io.repeats && is_selfover(c, a) => reps,
             _ => 1,
         };
         for _ in 0..n {
@@ -524,7 +570,7 @@ pub fn gen_intent(rng: &mut Rng, c: &CmdSpec, io: &IntentOpts) -> LevelIntent {
     }
     rng.shuffle(&mut occs);
     // bound the line length, but never drop the only occurrence of a required option
-    while occs.len() > io.max_items {
+    while occs.len() > max_items {
         let mut dropped = false;
         for k in (0..occs.len()).rev() {
             let oi = occs[k];
@@ -570,6 +616,12 @@ pub fn gen_intent(rng: &mut Rng, c: &CmdSpec, io: &IntentOpts) -> LevelIntent {
         slots.insert(at, Slot::P(poss[k]));
         at += 1;
     }
+    // a `last` positional is reached through `--` whatever lower-index optional positionals were left out
+    if let Some(&lp) = poss.last() {
+        if npos < poss.len() && c.args[lp].last && sub.is_none() && !low_index && !hyphen_pos && !c.has(Setting::AllowMissingPositional) && rng.chance(1, 3) {
+            slots.push(Slot::P(lp));
+        }
+    }
     // a `last` positional goes at the very end (after `--`); non-last positionals must not follow it
     let n = slots.len();
     for (si, s) in slots.iter().enumerate() {
@@ -607,7 +659,7 @@ pub fn gen_intent(rng: &mut Rng, c: &CmdSpec, io: &IntentOpts) -> LevelIntent {
                         1
                     }
                 } else if hi == usize::MAX {
-                    rng.range(lo, lo + 3)
+                    rng.range(lo, lo + if many { 40 } else { 3 })
                 } else {
                     rng.range(lo, hi)
                 };
@@ -653,7 +705,7 @@ pub fn gen_intent(rng: &mut Rng, c: &CmdSpec, io: &IntentOpts) -> LevelIntent {
                 // (the low-index multiple hands its last token to the final positional by look-ahead)
                 let pair_next = low_index && matches!(slots.get(si + 1), Some(Slot::P(_)));
                 let closed_by_next = pair_next || si + 1 == n && (sub.is_none() || c.has(Setting::SubcommandPrecedenceOverArg)) || matches!(slots.get(si + 1), Some(Slot::O(_)));
-                let ntok = if hi == usize::MAX { rng.range(lo.max(1), lo.max(1) + 3) } else { rng.range(lo.max(1), hi) };
+                let ntok = if hi == usize::MAX { rng.range(lo.max(1), lo.max(1) + if many { 40 } else { 3 }) } else { rng.range(lo.max(1), hi) };
                 let open = hi > 1;
                 let mut term = None;
                 if open && !closed_by_next && !a.last {
@@ -900,6 +952,9 @@ fn render_level<'a>(rng: &mut Rng, c: &'a CmdSpec, li: &LevelIntent, st: &Style,
         if infer && rng.below(100) < st.prefix {
             if let Some(p) = unique_prefix(rng, &name, &longs) {
                 r.features.push("prefix.long");
+                if !c.settings.contains(&Setting::InferLongArgs) {
+                    r.features.push(if lvl >= 2 { "prefix.long-by-setting-two-levels-up" } else { "prefix.long-by-inherited-setting" });
+                }
                 return p;
             }
         }
@@ -1130,6 +1185,15 @@ fn render_level<'a>(rng: &mut Rng, c: &'a CmdSpec, li: &LevelIntent, st: &Style,
                 if let Some(p) = unique_prefix(rng, a, &names) {
                     choices.push((p, "sub.prefix"));
                     break;
+                }
+            }
+            // long flag subcommands are inferred the same way, from the long flag or any of its
+            // aliases (a prefix no other long of this level shares)
+            if let Some(l) = &s.long_flag {
+                for l in std::iter::once(l).chain(s.long_flag_aliases.iter().map(|(a, _)| a)) {
+                    if let Some(p) = unique_prefix(rng, l, &longs) {
+                        choices.push((format!("--{}", p), "sub.long-flag-prefix"));
+                    }
                 }
             }
         }
